@@ -12,7 +12,7 @@ from ..harness import qcall
 
 ID = "C09"
 LEVEL = "exploration"
-BUDGET = {"quick": 800, "thorough": 140000}
+BUDGET = {"quick": 2400, "thorough": 140000}
 TECHNIQUE = "property-based testing: reference sum over uncovered cells (math.fsum) from the generator's coverage masks; metamorphic cross-checks (constant 1 = volume, re-layout invariance)"
 RULE = ("Hypothesis-generated nested 3D plotfiles with even blocking factor (2, 4, 8), mixed box extents (weighted "
         "towards meshes whose smallest extent is not the alignment, e.g. 16 and 24, or boxes offset by half the "
